@@ -154,6 +154,13 @@ func c01Ops(maxL int) []listOp {
 			in.m.push(x, nil, y)
 			return ""
 		}},
+		listOp{"copy.Free(); List().Push(x)", 0, always, func(in *listInst) string {
+			// a copy of the handle is released, somebody else makes a stack: this one goes on as before
+			h := in.s
+			h.Free()
+			stackage.List().Push(in.fresh())
+			return ""
+		}},
 		listOp{"Push()", 0, always, func(in *listInst) string {
 			in.s.Push()
 			return ""
